@@ -154,7 +154,7 @@ def run(ctx):
         import re as _re
         okv = [x.value_str() for x in okr]
         m = _re.match(r'^Ok\(\(%sStartOk\{client_properties: ([\w$]+), locale: self\.locale, mechanism: %s, response: auth::Sasl::response\(self\.auth\)\}, start\.server_properties\)\)$' % (_re.escape(CONN), _re.escape(mech)), okv[0]) if okv else None
-        r.check('StartOk:fields', len(okr) >= 2 and m is not None and all(v == okv[0] for v in okv), site, built=sorted(set(okv)), expected=want)
+        r.check('StartOk:fields', len(okr) >= 1 and m is not None and all(v == okv[0] for v in okv), site, built=sorted(set(okv)), expected=want)
         PROPS = m.group(1) if m else 'client_properties'
         # effective inserts into the property tables: direct ones, and the body of a local closure once per call of it
         evs, _ = ctx.events(fnp)
